@@ -62,14 +62,25 @@ def readsOf (n : Nat) (s : Bytes) : Nat → List Bytes
 /-! ### a failing Read that carries data -/
 
 /-- The reader on the successful reads `reads` followed by a last Read that returns the
-bytes `lastData` TOGETHER with a non-EOF error (`io.Reader` allows `n > 0, err != nil`).
-readAnsiInputs looks at the error FIRST (`if err != nil { … return }`), and only the io.EOF
-branch decodes anything (the held-back left-over, not the buffer): so `lastData` is never
-decoded, never becomes a message and never enters the left-over. This is what the `X` lines
-of the `reader` correspondence stream pin. The final error is not io.EOF, hence `eof = false`. -/
-def readAllX (T : Table) (lens : List Nat) (reads : List Bytes) (_lastData : Bytes) :
+bytes `lastData` TOGETHER with an error (`io.Reader` allows `n > 0, err != nil` and asks
+callers to process the bytes first). readAnsiInputs sets the error aside, decodes the bytes as
+a SHORT read (`canHaveMoreData = false`: nothing more will come, whatever the length) and deals
+with the error on the next turn of its loop: a non-EOF error returns at once; io.EOF decodes
+the left-over once more with the same flag, which changes nothing (`decodeLoop_false_left_fixed`).
+So for either kind of error: the messages of the successful reads, then the messages of
+`left ++ lastData` decoded with the flag off. An empty `lastData` is the ordinary failing Read.
+(Before fix `6d200e8` the code looked at the error first and dropped the bytes; the `X` lines
+of the `reader` stream pinned that, and now pin this.) -/
+def readAllX (T : Table) (lens : List Nat) (reads : List Bytes) (lastData : Bytes) :
     Except Panic (List Out × Bytes) :=
-  readAll T lens false reads [] []
+  match readAll T lens false reads [] [] with
+  | .error e => .error e
+  | .ok (out, left) =>
+    if lastData.isEmpty then .ok (out, left)
+    else
+      match decodeLoop T lens false ((left ++ lastData).length + 1) (left ++ lastData) [] with
+      | .error e => .error e
+      | .ok (out2, left2) => .ok (out ++ out2, left2)
 
 /-! ### cancellation
 
